@@ -188,6 +188,8 @@ class Gen:
             name = "f%d" % i
             if i > 0 and r.random() < 0.15:
                 name = "f%d" % r.randrange(i)            # redefinition of an earlier name
+            elif r.random() < 0.06:
+                name = r.choice(["__INC__", "__DEC__"])   # the names the built-in sugar expands to are ordinary identifiers
             routines.append(self.routine(name, routines))
         self.lab = 0
         main = self.block(["x", "y", "z"], routines, 0, r.randint(2, 7 if self.big else 6))
@@ -591,6 +593,79 @@ def gen_free(seed, nfiles=None, **kw):
     ast = make_ast(prog)
     ast["canon"] = False
     return {"files": files, "main": main, "ast": ast, "canon": False, "tokmap": sorted(tokmap)}
+
+
+def include_twice(p, r):
+    """canonical program -> the same with one included file of plain assignments included twice in a row (its statements then run
+    twice, at the same file and line); returns True if a suitable file was found.  Positions in the AST are kept consistent."""
+    ast = p["ast"]
+    blocks = []
+
+    def collect(b):
+        blocks.append(b)
+        for st in b:
+            for key in ("body", "then", "else"):
+                if key in st:
+                    collect(st[key])
+    collect(ast["main"])
+    for rt in ast["routines"]:
+        collect(rt["body"])
+    names = [f for f in p["files"] if f != p["main"]]
+    r.shuffle(names)
+    for name in names:
+        owners = [(b, i) for b in blocks for i, st in enumerate(b) if st.get("file") == name]
+        if not owners or any(b is not owners[0][0] for b, _ in owners):
+            continue
+        b = owners[0][0]
+        idx = [i for _, i in owners]
+        sts = [b[i] for i in idx]
+        if idx != list(range(idx[0], idx[0] + len(idx))) or any(st["k"] != "assign" or st.get("labels") or st["v"]["k"] == "call" for st in sts):
+            continue
+        if any(":=" not in ln for ln in p["files"][name].split("\n") if ln.strip()):
+            continue            # only files that consist of assignments (no include, no END of an enclosing construct)
+        # the host line
+        host = None
+        for f, text in p["files"].items():
+            lines = text.split("\n")
+            for ln, t in enumerate(lines, 1):
+                if t.strip().lower() == 'include "%s"' % name.lower() and t.strip()[8:].strip() == '"%s"' % name:
+                    host = (f, ln, lines)
+        if host is None:
+            continue
+        f, ln, lines = host
+        # a file of assignments is followed by ';' inside the file or on the host side; the copy needs the same separator: only files
+        # whose last statement carries its own ';' (or that end the block) are taken
+        body = p["files"][name].rstrip()
+        last_in_block = idx[-1] == len(b) - 1
+        if not body.endswith(";"):
+            if not last_in_block:
+                continue
+            p["files"][name] = body + ";\n" if False else p["files"][name]
+            continue
+        lines.insert(ln, lines[ln - 1])
+        p["files"][f] = "\n".join(lines)
+
+        def shift(bk):
+            for st in bk:
+                if st.get("file") == f and st.get("line", 0) > ln:
+                    st["line"] += 1
+                if st.get("endfile") == f and st.get("endline", 0) > ln:
+                    st["endline"] += 1
+                for key in ("body", "then", "else"):
+                    if key in st:
+                        shift(st[key])
+        shift(ast["main"])
+        for rt in ast["routines"]:
+            shift(rt["body"])
+            for key in ("file", "line", "endfile", "endline"):
+                pass
+            if rt.get("file") == f and rt.get("line", 0) > ln:
+                rt["line"] += 1
+            if rt.get("endfile") == f and rt.get("endline", 0) > ln:
+                rt["endline"] += 1
+        b[idx[-1] + 1:idx[-1] + 1] = [_copy(st) for st in sts]
+        return True
+    return False
 
 
 def gen_static_error(seed):
